@@ -126,6 +126,12 @@ public:
   void resize(usize size, const T& value = T())
   {
     usize _size = _end.item - _begin.item;
+    if(size > _capacity && &value >= _begin.item && &value < _end.item)
+    { // value refers to an element of this array and the storage is about to be reallocated
+      T copy(value);
+      resize(size, copy);
+      return;
+    }
     if (size < _size)
     {
       T* newEnd = _begin.item + size;
@@ -179,6 +185,11 @@ public:
   T& append(const T& value)
   {
     usize size = _end.item - _begin.item;
+    if(size + 1 > _capacity && &value >= _begin.item && &value < _end.item)
+    { // value refers to an element of this array and the storage is about to be reallocated
+      T copy(value);
+      return append(copy);
+    }
     reserve(size + 1);
     T* item = _end.item;
 #ifdef VERIFY
